@@ -207,7 +207,7 @@ def make_wide_instance(rng, k, nind=1, trios=(), quals=(10, 20, 30, 0, 10, 20), 
             "recomb": [rng.choice((0, 10, 20, 30)) for _ in range(ncols)]}
 
 
-def make_threegen_instance(rng, sibling=False, order="top-down"):
+def make_threegen_instance(rng, sibling=False, order="top-down", one_read=False):
     """three generations: grandparents 0,1 -> parent 2; parent 2 and the married-in parent 3 -> child 4 (and sibling 5).
     `order` is the order in which the relationships are registered (add_relationship): top-down, bottom-up or mixed.
     One or two reads over two columns (one of them of a grandchild, one of a grandparent), decimal numbers."""
@@ -220,7 +220,7 @@ def make_threegen_instance(rng, sibling=False, order="top-down"):
         trios = [trios[1], trios[0]] + trios[2:] if not sibling else [trios[2], trios[0], trios[1]]
     quals = [10, 20, 30]
     who = [rng.choice([4, 5] if sibling else [4]), rng.choice([0, 1])]
-    if rng.random() < 0.4:
+    if one_read or rng.random() < 0.4:
         who = who[:1]
     reads = [{"sample": s, "vars": [[0, rng.randint(0, 1), rng.choice(quals)], [1, rng.randint(0, 1), rng.choice(quals)]]}
              for s in who]
